@@ -75,6 +75,8 @@ def run(rec, cfg):
         frontier = [root]
         for depth in range(depth_limit):
             nxt = []
+            if cfg.out_of_time():
+                break
             for r in frontier:
                 for label, rule in rules:
                     rule.find_node(r)
@@ -112,6 +114,15 @@ def run(rec, cfg):
             continue
         rec.arm("start:" + src)
         drive(root, rules=use, big=big)
+        if D._small(root, 25) and not big:
+            # the rules as in-place operations: listings made on one side only, two steps in a row on
+            # the same objects, a node taken from the listing made before the last step
+            if S.kind(root) == "Equal":
+                D.apply_from_subtree_listing(rec, root, [(l, r) for l, r in use if l in ("BM", "CA", "DF", "VM", "CS", "AG")], rng)
+            if src in ("arm-text", "edge-text", "near-text") or rng.random() < 0.3:
+                D.inplace_pairs(rec, root, use, rng, first=5, second=4)
+            if rng.random() < 0.3:
+                D.inplace_chain(rec, root, use, rng, steps=rng.randint(2, 5))
         if rng.random() < 0.02:
             rec.sample({"source": src, "start": text[:120]})
 
